@@ -185,6 +185,11 @@ def build(ctx, case, db):
     return text, info
 
 
+def marg(si, target):
+    """a saturation index that misses its target by 1e-6 .. 1e-5 is keyed apart (open known finding: accuracy of the solver for trace redox elements)"""
+    return "/marginal" if abs(si - target) <= 1e-5 else ""
+
+
 def run_case(ctx, case):
     db = c01.get_db(ctx, case["db"])
     text, info = build(ctx, case, db)
@@ -233,21 +238,21 @@ def run_case(ctx, case):
                 if n > amt * (1 + 1e-9) + 1e-14:
                     findings.append(("C03/dissolve-only-grew", "%s: amount grew to %.10g" % (tag, n)))
                 if present and abs(si - target) > 1e-6 and not (si > target and abs(n - amt) <= 1e-9 * amt):
-                    findings.append(("C03/complementarity/dissolve_only", "%s: present with %.10g mol but SI = %.9f" % (tag, n, si)))
+                    findings.append(("C03/complementarity/dissolve_only" + ("/over-dissolved" if (n < amt and si > target) else "") + marg(si, target), "%s: present with %.10g mol but SI = %.9f" % (tag, n, si)))
                 if not present and si > target + 1e-6 and amt > 0:
                     pass      # it dissolved completely earlier in the step and cannot re-precipitate: admissible
             elif restr == "precipitate_only":
                 if n < amt * (1 - 1e-9) - 1e-14:
                     findings.append(("C03/precipitate-only-shrank", "%s: amount shrank to %.10g" % (tag, n)))
                 if abs(si - target) > 1e-6 and not (si < target and abs(n - amt) <= 1e-9 * max(amt, 1e-30) + 1e-14):
-                    findings.append(("C03/complementarity/precipitate_only", "%s: %.10g mol, SI = %.9f (undersaturation is admissible only at the initial amount, supersaturation never)" % (tag, n, si)))
+                    findings.append(("C03/complementarity/precipitate_only" + ("/over-precipitated" if (n > amt and si < target) else "") + marg(si, target), "%s: %.10g mol, SI = %.9f (undersaturation is admissible only at the initial amount, supersaturation never)" % (tag, n, si)))
             else:
                 if present and abs(si - target) > 1e-6:
-                    findings.append(("C03/complementarity/present", "%s: present with %.10g mol but SI = %.9f" % (tag, n, si)))
+                    findings.append(("C03/complementarity/present" + marg(si, target), "%s: present with %.10g mol but SI = %.9f" % (tag, n, si)))
                 if not present and si > target + 1e-6:
-                    findings.append(("C03/complementarity/absent", "%s: absent (0 mol) although SI = %.9f exceeds the target" % (tag, si)))
-                if restr == "force_equality" and abs(si - target) > 1e-6:
-                    findings.append(("C03/force-equality", "%s: SI = %.9f" % (tag, si)))
+                    findings.append(("C03/complementarity/absent" + marg(si, target), "%s: absent (0 mol) although SI = %.9f exceeds the target" % (tag, si)))
+                if restr == "force_equality" and present and abs(si - target) > 1e-6:      # a phase that ran out (10 mol of Halite in 1 kg at a target of +0.72) cannot hold its target
+                    findings.append(("C03/force-equality" + marg(si, target), "%s: SI = %.9f" % (tag, si)))
         if "cec" in info:
             tot = 0.0
             for sp in info["exsp"]:
